@@ -3,7 +3,7 @@ EXTENDS LfsConfig
 K(n, d) == [name |-> n, doc |-> d, pat |-> n \in {"lfs.<url>.access", "remote.origin.lfsurl"}]
 N(n, p) == [name |-> n, doc |-> TRUE, pat |-> p]
 \* the other lines of the file: documented keys, two of them allow-listed by pattern
-NeighAll == { N("ctx.access", TRUE), N("ctx.remote.lfsurl", TRUE), N("ctx.fetchexclude", FALSE), N("ctx.samekey", FALSE) }
+NeighAll == { N("ctx.access", TRUE), N("ctx.remote.lfsurl", TRUE), N("ctx.fetchexclude", FALSE), N("ctx.samekey", FALSE), N("ctx.dupkey", FALSE) }
 KeysAll == { K("lfs.url", TRUE), K("remote.origin.lfsurl", TRUE), K("lfs.skipdownloaderrors", TRUE),
              K("lfs.<url>.access", TRUE),
              K("lfs.concurrenttransfers", FALSE), K("lfs.tustransfers", FALSE), K("lfs.basictransfersonly", FALSE),
